@@ -174,6 +174,11 @@ def gen_model_cfg(rng: random.Random, tb: dict, shock_prone=False) -> dict:
         N = tb["m"] * tb["n"]
         x = [sum(tb["Z"][i]) + sum(tb["Y"][i]) for i in range(N)]
         cfg["capital"] = {"kind": kind, "values": [xi * rng.uniform(0.5, 6.0) for xi in x]}
+        # a labelled vector may list the industries in any order, and a DataFrame may hold them as rows or columns
+        if kind in ("series", "dataframe") and rng.random() < 0.5:
+            cfg["capital"]["shuffle"] = rng.randrange(1 << 30)
+        if kind == "dataframe" and rng.random() < 0.4:
+            cfg["capital"]["as_row"] = True
     if shock_prone:
         cfg["main_inv_dur"] = rng.choice([2, 3, 5])
         cfg["inventory_dict"] = None
@@ -218,13 +223,21 @@ def build_model(tb: dict, cfg: dict, io=None, capital_perm=None, dict_order=None
         kw["productive_capital_vector"] = np.array(cap["values"], dtype=float)
     elif cap["kind"] == "series":
         s = pd.Series(cap["values"], index=ind, dtype=float)
+        if capital_perm is None and cap.get("shuffle") is not None:
+            capital_perm = list(range(len(ind)))
+            random.Random(cap["shuffle"]).shuffle(capital_perm)
         if capital_perm is not None:
             s = s.iloc[capital_perm]
         kw["productive_capital_vector"] = s
     elif cap["kind"] == "dataframe":
         s = pd.DataFrame({"capital": cap["values"]}, index=ind, dtype=float)
+        if capital_perm is None and cap.get("shuffle") is not None:
+            capital_perm = list(range(len(ind)))
+            random.Random(cap["shuffle"]).shuffle(capital_perm)
         if capital_perm is not None:
             s = s.iloc[capital_perm]
+        if cap.get("as_row"):
+            s = s.T
         kw["productive_capital_vector"] = s
     if cfg["class"] == "psi":
         rt = cfg.get("restoration_tau", 60)
@@ -363,6 +376,11 @@ def gen_scenario(seed: int, stream: str = "shocked", **over) -> dict:
     T = over.get("T", rng.choice([12, 20, 30]) if stream != "mild" else rng.choice([30, 45]))
     sc = {"seed": seed, "stream": stream, "table": tb, "model": cfg, "T": T, "events": [],
           "sim": {"register_stocks": False, "save_records": [], "events_mode": "one"}}
+    orng = random.Random(seed ^ 0x5EED)          # options of the simulation: drawn apart, the streams above stay as they were
+    if orng.random() < 0.3:
+        sc["sim"]["register_stocks"] = True
+    if orng.random() < 0.15:
+        sc["sim"]["show_progress"] = True
     if stream == "eventfree":
         # step lengths other than 1 (the documentation warns about them, but they are accepted)
         if rng.random() < 0.3:
@@ -500,6 +518,8 @@ def gen_starve(seed: int, rng: random.Random) -> dict:
 def build_sim(sc: dict, model=None, outdir=None):
     model = model if model is not None else build_model(sc["table"], sc["model"])
     kw = dict(n_temporal_units_to_sim=sc["T"], register_stocks=sc["sim"].get("register_stocks", False))
+    if sc["sim"].get("show_progress"):
+        kw["show_progress"] = True
     if sc["sim"].get("save_records"):
         kw["save_records"] = sc["sim"]["save_records"]
     if outdir is not None:
